@@ -21,6 +21,7 @@ fn factory_for(id: &str) -> Option<(&'static str, Factory)> {
         "C04" => ("C04", |t| Box::new(props::c04::C04::new(t)) as Box<dyn Property>),
         "C08" => ("C08", |t| Box::new(props::c08::C08::new(t)) as Box<dyn Property>),
         "C15" => ("C15", |t| Box::new(props::c15::C15::new(t)) as Box<dyn Property>),
+        "C14" => ("C14", |t| Box::new(props::c14::C14::new(t)) as Box<dyn Property>),
         "C11" => ("C11", |t| Box::new(props::c11::C11::new(t)) as Box<dyn Property>),
         _ => return None,
     })
